@@ -1,6 +1,7 @@
 import TF.Proofs.PolyInterp
 import TF.Proofs.PolyInterpBary
 import TF.Proofs.PolyInterpEO
+import TF.Proofs.PolyInterpMemo
 /-!
 # C08 — interpolation, bulk evaluation, zerofiers and coset extrapolation are exact
 
@@ -169,6 +170,17 @@ theorem par_fast_interpolate_spec (t : Thr) (hT : 2 ≤ t.zf) (hRT : 0 < t.rt) (
   intro d v hd hlen hnd hlv
   exact interpolateFuel_spec root hE t hT t.par _ hbev (d.length + 1) d v hd (by omega) hnd hlv
 
+/-- **`batch_fast_interpolate`** (batched divide and conquer with the two `HashMap`s keyed by the first and last
+    point of a half): for pairwise distinct abscissae no key is ever hit twice, and every row of the value matrix is
+    interpolated — for every batch cut-off `≥ 2` (the source has 16; below 2 the code indexes `domain[half - 1]`
+    with `half = 0`), ratio, leaf size `≥ 1`, zerofier cut-off `≥ 2`. -/
+theorem batch_fast_interpolate_spec (t : Thr) (hT : 2 ≤ t.zf) (hRT : 0 < t.rt) (hB : 2 ≤ t.batch)
+    (domain : List K) (matrix : List (List K)) (hne : domain ≠ []) (hn : domain.Nodup)
+    (hrows : ∀ row ∈ matrix, row.length = domain.length) :
+    ∃ res, batchFastInterpolateWith FK E t domain matrix = some res ∧
+      List.Forall₂ (fun row r => Interpolates domain row (denote r)) matrix res :=
+  batchFastInterpolateWith_spec root hE t hT hRT hB domain matrix hne hn hrows
+
 omit hE in
 /-- the excluded inputs: `interpolate` / `par_interpolate` panic on an empty domain and on lists of different
     lengths (the two `assert!`s), for every threshold. -/
@@ -336,7 +348,7 @@ example (root : Nat → Option ℚ) : (Ext.idealNtt root).Lawful ∧ Ext.LawfulN
 /-- … and so are the hypotheses on the points -/
 example : ([0, 1, 2] : List ℚ).Nodup ∧ ([0, 1, 2] : List ℚ).length = ([5, 7, 11] : List ℚ).length
     ∧ ([0, 1, 2] : List ℚ) ≠ [] := by decide
-example : 2 ≤ Thr.src.zf ∧ 0 < Thr.src.rt := by decide
+example : 2 ≤ Thr.src.zf ∧ 0 < Thr.src.rt ∧ 2 ≤ Thr.src.batch := by decide
 
 /-- the thresholds the theorems are instantiated with by the driver come from the source -/
 example : TF.Gen.FAST_ZEROFIER_CUTOFF_THRESHOLD = 100 := rfl
